@@ -194,7 +194,7 @@ SelectionSane ==
   /\ \A i \in 1..(Len(yielded) - 1) : yielded[i] < yielded[i + 1]
 
 \* the action-by-action loop and the loop written as one recursive function agree
-LoopShape == Done => yielded = SelLoop(0, Len(produced), pagenos, maxpages, Dev)
+LoopShape == Done => yielded = SelLoop(Len(produced), pagenos, maxpages, Dev)
 
 \* termination on every graph, cyclic or not: every step decreases <<unvisited, open Kids slots, frames, pc>>
 \* (AReveal adds a node and is immediately followed by its visit: counted through the pending call)
